@@ -55,6 +55,7 @@ type Job struct {
 	Tag     string      `json:"tag,omitempty"`
 	// scale / reread / mutate
 	Src  int        `json:"src"`
+	Hid  int        `json:"hid"`
 	W    int        `json:"w"`
 	H    int        `json:"hh"`
 	Fill *ColorSpec `json:"fill,omitempty"`
@@ -189,7 +190,7 @@ type handle struct {
 }
 
 var (
-	handles  []handle
+	handles  = map[int]handle{}
 	buffers  = map[int][]byte{}
 	bitlists = map[int]*utils.BitList{}
 	fields   = map[string]*utils.GaloisField{}
@@ -345,7 +346,7 @@ func guarded(f func() map[string]interface{}) map[string]interface{} {
 	}
 }
 
-func outcome(bc barcode.Barcode, err error, ref project.Ref, proj string, keep bool) map[string]interface{} {
+func outcome(bc barcode.Barcode, err error, ref project.Ref, proj string, hid int) map[string]interface{} {
 	nilbc := isNilBarcode(bc)
 	switch {
 	case err != nil && nilbc:
@@ -360,11 +361,11 @@ func outcome(bc barcode.Barcode, err error, ref project.Ref, proj string, keep b
 		return map[string]interface{}{"kind": "neither"}
 	}
 	res := project.Project(bc, ref, proj)
-	if keep {
-		handles = append(handles, handle{bc, ref})
-		res["h"] = len(handles) - 1
+	if hid != 0 {
+		handles[hid] = handle{bc, ref}
+		res["h"] = hid
 	} else {
-		res["h"] = -1
+		res["h"] = 0
 	}
 	return res
 }
@@ -442,7 +443,7 @@ func run(j *Job, evIdx int) map[string]interface{} {
 				before = append([]int{}, j.Content...)
 			}
 			bc, err, sch := doEncode(j, evIdx)
-			res := outcome(bc, err, project.Ref{Fg: sch.Foreground, Bg: sch.Background}, proj, true)
+			res := outcome(bc, err, project.NewRef(sch.Foreground, sch.Background), proj, j.Hid)
 			if j.Sym == "aztec" {
 				// did the call modify the caller's buffer?
 				after := toInts(buffers[evIdx])
@@ -456,33 +457,36 @@ func run(j *Job, evIdx int) map[string]interface{} {
 		})
 	case "scale":
 		return guarded(func() map[string]interface{} {
-			if j.Src < 0 || j.Src >= len(handles) {
-				return map[string]interface{}{"kind": "harness", "msg": "bad handle"}
+			src, ok := handles[j.Src]
+			if !ok {
+				return map[string]interface{}{"kind": "nosource", "msg": "source handle was not created"}
 			}
-			src := handles[j.Src]
 			var bc barcode.Barcode
 			var err error
-			ref := project.Ref{Fg: src.ref.Fg, Bg: src.ref.Bg}
+			var ref project.Ref
+			var fill color.Color
 			if j.Fill == nil {
 				bc, err = barcode.Scale(src.bc, j.W, j.H)
-				// what the default must be is decided by the spec from 'srchasscheme'; classification needs a
-				// candidate, so both candidates are tried in Classify order: fg, bg, then the explicit fill.
+				// Pixels are classified against a candidate default fill; whether that is the right default is decided
+				// by the spec (from the source's logged colour scheme), and any other colour shows up as class 99.
 				if v, ok := src.bc.(barcode.BarcodeColor); ok {
-					ref.Fill = v.ColorScheme().Background
+					fill = v.ColorScheme().Background
 				} else {
-					ref.Fill = color.White
+					fill = color.White
 				}
 			} else {
-				ref.Fill = mkColor(j.Fill)
-				bc, err = barcode.ScaleWithFill(src.bc, j.W, j.H, ref.Fill)
+				fill = mkColor(j.Fill)
+				bc, err = barcode.ScaleWithFill(src.bc, j.W, j.H, fill)
 			}
-			res := outcome(bc, err, ref, proj, true)
+			ref = src.ref.With(fill)
+			res := outcome(bc, err, ref, proj, j.Hid)
+			res["fillstr"] = project.ColorString(fill)
 			return res
 		})
 	case "reread":
 		return guarded(func() map[string]interface{} {
-			if j.Src < 0 || j.Src >= len(handles) {
-				return map[string]interface{}{"kind": "harness", "msg": "bad handle"}
+			if _, ok := handles[j.Src]; !ok {
+				return map[string]interface{}{"kind": "nosource", "msg": "source handle was not created"}
 			}
 			res := project.Project(handles[j.Src].bc, handles[j.Src].ref, proj)
 			res["h"] = j.Src
@@ -508,7 +512,7 @@ func run(j *Job, evIdx int) map[string]interface{} {
 		default:
 			bc = &base
 		}
-		return outcome(bc, nil, project.Ref{Fg: base.fg, Bg: base.bg}, proj, true)
+		return outcome(bc, nil, project.NewRef(base.fg, base.bg), proj, j.Hid)
 	case "addchecksum":
 		return guarded(func() map[string]interface{} {
 			s, err := twooffive.AddCheckSum(string(toBytes(j.Content)))
